@@ -5,12 +5,16 @@
 
    truncated after N = 220 terms with the geometric tail bound 2*|t_N| (valid for |x| <= 8, where
    the ratio of consecutive terms x^2/(2k+3) is below 1/2 for k >= N), and the crude bounds
-   [0, 2^-50] / [1 - 2^-50, 1] beyond |x| > 8.
+   [-2^-50, 2^-50] / [1 - 2^-50, 1 + 2^-50] beyond |x| > 8.
 
-   TRUST: that this function encloses Phi is NOT proved here (the Interval library has no erf);
-   it is a hypothesis of the soundness theorem (Proofs/EvalIP.v, [PhiI_correct]) and is listed in
-   the trusted base of every check that evaluates a normal CDF.  It is cross-checked against
-   scipy's norm.cdf / math.erfc on a grid by the C01 stream `phi_grid`.
+   PROVED, no longer trusted: Proofs/PhiP.v [PhiI_series_correct] shows that this function
+   encloses the concrete function Model/PhiDef.v [Phi_def] x = 1/2 + RInt npdf 0 x (Coquelicot's
+   Riemann integral of the normal density) for every input interval; it discharges the hypothesis
+   [PhiI_correct] of the soundness theorem Proofs/EvalIP.v [evalI_sound] (Properties/C01.v,
+   T01f_PhiI_series_correct / T01f_evalI_sound_concrete).  The result is NOT intersected with
+   [0,1] and the far branches are two-sided: 0 <= Phi_def <= 1 would need the Gaussian integral,
+   which is not proved.  The C01 stream `phi_grid` still cross-checks it against scipy's
+   norm.cdf / math.erfc on a grid (this ties scipy to the proved enclosure, not the reverse).
    Definitions only. *)
 From Coq Require Import ZArith List.
 From Interval Require Import Xreal Specific_bigint Specific_ops Float_full Interval Basic.
@@ -27,21 +31,26 @@ Fixpoint phi_terms (n : nat) (k : Z) (t x2 acc : I.type) : I.type * I.type :=
 Definition i_eight : I.type := I.fromZ prec 8.
 Definition i_tiny : I.type := I.power_int prec (I.fromZ prec 2) (-50).
 
+(* enclosure of the density phi, given an enclosure of x^2 *)
+Definition npdfI (x2 : I.type) : I.type :=
+  I.div prec (I.exp prec (I.neg (I.div prec x2 (I.fromZ prec 2))))
+             (I.sqrt prec (I.mul prec (I.fromZ prec 2) (I.pi prec))).
+
+(* the series with its tail bound; encloses Phi for |x| <= 8 *)
+Definition PhiI_main (x : I.type) : I.type :=
+  let x2 := I.sqr prec x in
+  let '(s, tN) := phi_terms 220 0 x x2 x in
+  let b := I.mul prec (I.fromZ prec 2) (I.abs tN) in
+  let tail := I.join (I.neg b) b in
+  I.add prec (I.div prec (I.fromZ prec 1) (I.fromZ prec 2)) (I.mul prec (npdfI x2) (I.add prec s tail)).
+
 Definition PhiI_series (x : I.type) : I.type :=
   match isign (I.sub prec i_eight (I.abs x)) with
-  | SPos | SZero =>
-      let x2 := I.sqr prec x in
-      let '(s, tN) := phi_terms 220 0 x x2 x in
-      let b := I.mul prec (I.fromZ prec 2) (I.abs tN) in
-      let tail := I.join (I.neg b) b in
-      let dens := I.div prec (I.exp prec (I.neg (I.div prec x2 (I.fromZ prec 2))))
-                         (I.sqrt prec (I.mul prec (I.fromZ prec 2) (I.pi prec))) in
-      I.meet (I.add prec (I.div prec (I.fromZ prec 1) (I.fromZ prec 2)) (I.mul prec dens (I.add prec s tail)))
-             (I.join (I.fromZ prec 0) (I.fromZ prec 1))
+  | SPos | SZero => PhiI_main x
   | SNeg =>
       match isign x with
-      | SNeg => I.join (I.fromZ prec 0) i_tiny
-      | SPos => I.join (I.sub prec (I.fromZ prec 1) i_tiny) (I.fromZ prec 1)
+      | SNeg => I.join (I.neg i_tiny) i_tiny
+      | SPos => I.join (I.sub prec (I.fromZ prec 1) i_tiny) (I.add prec (I.fromZ prec 1) i_tiny)
       | _ => I.nai
       end
   | SUnk => I.nai
